@@ -7,6 +7,8 @@
 //! (async), and log `enter` / `exit`.  Nothing here depends on olegnn/join.
 #![allow(clippy::all)]
 
+/// C12: takes a `let mut` name by mutable reference (no effect; the borrow is the point)
+pub fn mutate<T>(_v: &mut T) {}
 /// `futures` under another path: the value the C16 programs give to `futures_crate_path`
 pub use futures as fx;
 use serde_json::{json, Map, Value};
